@@ -370,7 +370,11 @@ def judge_request(dec: Dict[str, Any], query: str, opname: Optional[str], exp_va
         return bad
     # multipart
     if dec["ctype"] != "multipart/form-data":
-        bad.append(("multipart-content-type", "%r with uploads present" % dec["ctype"]))
+        if "content-type" in caller_headers:
+            # the caller's own Content-Type replaced the multipart one (boundary lost): a listed finding of its own
+            bad.append(("multipart-caller-content-type", "%r with uploads present; the caller passed Content-Type %r" % (dec["ctype"], caller_headers["content-type"])))
+        else:
+            bad.append(("multipart-content-type", "%r with uploads present" % dec["ctype"]))
         return bad
     parts = dec["parts"]
     if "__dup__" in parts:
@@ -441,6 +445,8 @@ def kwargs_variants(rng: random.Random, multipart: bool):
     if k == 3:
         return {"headers": {"X-Client-Default": "d", "X-Req": "r"}, "params": {"p": "1"}}
     if multipart:
+        if rng.random() < 0.3:
+            return {"headers": {"Content-Type": "application/json", "X-Extra": "2"}}  # a caller who sets the JSON content type on every call
         return {"headers": {"X-Only": "o"}}
     return {"headers": {"Content-Type": "application/graphql+json", "X-Extra": "2"}}
 
@@ -500,12 +506,14 @@ async def one_case(r: core.Run, deps, rng_seed: int, idx: int):
         if not probs:
             r.held += 1
         for clause, detail in probs:
-            r.add_violation(core.Violation(PROP, clause, "%s: %s; kwargs=%r" % (variant, detail, kwargs), sorted(feats), case, mech="c11:" + clause))
+            r.add_violation(core.Violation(PROP, clause, "%s: %s; kwargs=%r" % (variant, detail, kwargs), sorted(feats), case, mech=("upload-call-with-caller-content-type" if clause == "multipart-caller-content-type" else "c11:" + clause)))
         r.count("multipart" if exp_files else "json")
         if exp_files:
             r.count("uploads_distinct", len(exp_files))
             r.count("upload_positions", sum(len(f[0]) for f in exp_files))
-    if len({normalise(d) for d in decs.values()}) > 1 or len({repr(o) for o in outcomes.values()}) > 1:
+    undecodable_upload = bool(exp_files) and any(k.lower() == "content-type" for k in (kwargs.get("headers") or {}))
+    # (under the listed finding the body keeps each client's random boundary and cannot be decoded: nothing to compare across clients)
+    if not undecodable_upload and (len({normalise(d) for d in decs.values()}) > 1 or len({repr(o) for o in outcomes.values()}) > 1):
         r.add_violation(core.Violation(PROP, "clients-agree", "requests/outcomes differ across clients: %r" % ({k: normalise(v)[:300] for k, v in decs.items()},),
                                        sorted(feats), {"kind": "single", "seed": rng_seed, "idx": idx}, mech="c11:clients-agree"))
     for f in feats:
@@ -534,6 +542,8 @@ async def sequence_case(r: core.Run, deps, seed: int, variant: str):
 
     client, tracer = make_client(deps, variant, handler)
     shared_headers = {"Authorization": "Bearer shared", "X-Seq": "s"}
+    if seed % 3 == 1:
+        shared_headers["Content-Type"] = "application/json"  # the shared dict also names the content type (JSON calls must keep sending it, before and after an upload)
     shared_kwargs = {"headers": shared_headers, "timeout": 9.0}
     before = copy.deepcopy(shared_kwargs)
     steps = []
@@ -580,7 +590,7 @@ async def sequence_case(r: core.Run, deps, seed: int, variant: str):
         for clause, detail in probs:
             r.add_violation(core.Violation(PROP, clause, "%s step %d (%s after %s) of a call sequence sharing one kwargs dict: %s" % (
                 variant, i, "multipart" if exp_files else "json", ("multipart" if steps[i - 1][2] else "json") if i else "nothing", detail), ["history.sequence"], case,
-                mech="c11:sequence:" + clause))
+                mech=("upload-call-with-caller-content-type" if clause == "multipart-caller-content-type" else "c11:sequence:" + clause)))
     if shared_kwargs != before:
         r.add_violation(core.Violation(PROP, "caller-kwargs-untouched", "%s: the caller's kwargs changed from %r to %r" % (variant, before, shared_kwargs), ["history.sequence"], case,
                                        mech="c11:caller-kwargs-mutated"))
